@@ -122,7 +122,7 @@ def _expr_members(expr, x):
     return _den(expr, x)
 
 
-def find_body(mask, ri, ti, ki, ai, si, pi, facet):
+def find_body(mask, ri, ti, ki, ai, si, pi, facet, warm=0):
     """content = the pool entries selected by the literal bit mask; constraints and the
     page are selectors; oracle = brute-force filter of the real _prime_keys() names"""
     sels = []
@@ -139,13 +139,25 @@ def find_body(mask, ri, ti, ki, ai, si, pi, facet):
         f = _fsetup()
         f['w'].reset()
         f['w'].on_step = None
-        for bit, (task, name, tgt, run) in enumerate(POOL):
-            if mask >> bit & 1:
-                f['shelve'].add(tgt)
-                f['store'].do_update(f['ae'], task, name, tgt, run, f'c{bit}')
         runids, targets, tasks, algs, svs = RUNIDS[sels[0]], TARGETS[sels[1]], TASKS[sels[2]], ALGS[sels[3]], SVS[sels[4]]
         index, limit = PAGES[sels[5]]
-        rt.note(f'content={mask:06b} runids={runids!r} targets={targets} tasks={tasks} algs={algs} svs={svs} page=({index},{limit})')
+        params = Params(runids=runids, targets=targets, tasks=tasks, algs=algs, svs=svs, vals=None)
+
+        def fill(bits):
+            for bit, (task, name, tgt, run) in enumerate(POOL):
+                if bits >> bit & 1:
+                    f['shelve'].add(tgt)
+                    f['store'].do_update(f['ae'], task, name, tgt, run, f'c{bit}')
+
+        if warm:
+            # the database grows between two searches of one process: the same search is
+            # asked on the smaller content first and its answer thrown away
+            fill(mask & warm)
+            f['shelve'].search().find(params, 0, None)
+            fill(mask & ~warm)
+        else:
+            fill(mask)
+        rt.note(f'content={mask:06b} warm={warm:06b} runids={runids!r} targets={targets} tasks={tasks} algs={algs} svs={svs} page=({index},{limit})')
         rows = set()
         for full in f['shelve']._prime_keys():
             run, tgt, task, alg, sv, _val = full.split('.')
@@ -158,7 +170,6 @@ def find_body(mask, ri, ti, ki, ai, si, pi, facet):
         if want:
             rt.nontrivial()
         eng = f['shelve'].search()
-        params = Params(runids=runids, targets=targets, tasks=tasks, algs=algs, svs=svs, vals=None)
         allres = eng.find(params, 0, None)
         got_all = [tuple([int(x.split('.')[0])] + x.split('.')[1:]) for x in allres.items]
         rt.require(sorted(got_all) == want, 'find:wrong-entries', f'find returned {sorted(got_all)}, brute force {want}')
@@ -196,7 +207,7 @@ INFO = {
     'path = one token sequence',
     'functions': ['db.basis.SearchFacade._divide', 'db.basis.SearchFacade._scrub', 'db.basis.Range', 'db.basis.SearchFacade.find/facet', 'db.shelve.search.SearchImplementation._prime_keys/_find/_facet', 'db.shelve.search._subset/_align/_table_index'],
     'bounds': {
-        'quick': 'find/facet: contents = subsets of a pool of 6 stored units (3 authors, 2 targets, runs 1,2,3,10) x 11 run-id expressions (lists, closed/open/overlapping ranges, strings) x target/task/algorithm/state-vector constraints x 9 pages; lemma: <=2 ranges (each open or closed, any integer bounds incl. empty/inverted) + <=2 indices, probe id any integer; strings: 3 tokens from a pool of 14',
+        'quick': 'find/facet: contents = subsets of a pool of 6 stored units (also: the same search asked before and after the database grows) (3 authors, 2 targets, runs 1,2,3,10) x 11 run-id expressions (lists, closed/open/overlapping ranges, strings) x target/task/algorithm/state-vector constraints x 9 pages; lemma: <=2 ranges (each open or closed, any integer bounds incl. empty/inverted) + <=2 indices, probe id any integer; strings: 3 tokens from a pool of 14',
         'thorough': '<=3 ranges + <=2 indices, all integers; strings: 3 tokens from a pool of 14',
     },
     'assumptions': ['run ids are Python ints (no wrap-around)'],
@@ -239,6 +250,10 @@ def obligations(tier):
             out.append(ob.make(f'find-m{mask:06b}-r{r0}', 'find', 'vp.harness.c17:find_body', 'ti: int, ki: int, ai: int, si: int, pi: int',
                                [f'0 <= ti < {nm[1]} and 0 <= ki < {nm[2]} and 0 <= ai < {nm[3]} and 0 <= si < {nm[4]} and 0 <= pi < {nm[5]}'],
                                f"{{'mask': {mask}, 'ri': {r0}, 'ti': ti, 'ki': ki, 'ai': ai, 'si': si, 'pi': pi, 'facet': {mask == 0b111111}}}", timeout=900 if tier == 'quick' else 3000))
+    for r0 in (0, 3):
+        out.append(ob.make(f'find-grow-r{r0}', 'find', 'vp.harness.c17:find_body', 'ti: int, ki: int, ai: int, si: int, pi: int',
+                           [f'0 <= ti < {nm[1]} and 0 <= ki < {nm[2]} and 0 <= ai < {nm[3]} and 0 <= si < {nm[4]} and 0 <= pi < {nm[5]}'],
+                           f"{{'mask': 63, 'ri': {r0}, 'ti': ti, 'ki': ki, 'ai': ai, 'si': si, 'pi': pi, 'facet': True, 'warm': 0b000101}}", timeout=900 if tier == 'quick' else 3000))
     out.append(ob.make('find', 'find', 'vp.harness.c17:find_body', 'ri: int, ti: int', [f'0 <= ri < {nm[0]} and 0 <= ti < {nm[1]}'],
                        "{'mask': 63, 'ri': ri, 'ti': ti, 'ki': 0, 'ai': 0, 'si': 0, 'pi': 0, 'facet': False}", timeout=300, twin=True))
     n = len(TOKENS)
